@@ -10,7 +10,9 @@ for f in sorted(glob.glob(os.path.join(VERIF, "rules", "c[0-9][0-9].py"))):
         rule, what, floor = m.groups()
         if not floor.isdigit():
             d = re.search(r"def \w+\([^)]*\b%s=(\d+)" % floor, src)
-            floor = (d.group(1) if d else floor) + " (default)"
+            calls = re.findall(r"\b%s=(\d+)\)" % floor, src)
+            calls = [c for c in calls if c != "0"]
+            floor = calls[-1] if calls else ((d.group(1) if d else floor) + " (default)")
         rows.append("| %s | %s | %s | %s |" % (cid, rule, what, floor))
 p = os.path.join(VERIF, "DESIGN.md")
 s = open(p).read()
